@@ -102,6 +102,7 @@ type simConn struct {
 	armedW     bool
 	closed     bool
 	expiredR   bool                 // a read deadline expired and has not been set again
+	deadlineR  time.Time            // the read deadline as set (zero: none)
 	pend       []byte               // rest of a chunk that did not fit the slice
 	written    []byte               // every byte accepted
 	closedCh   chan struct{}        // closed together with the connection (optional)
@@ -234,6 +235,7 @@ func (c *simConn) SetDeadline(t time.Time) error {
 	c.mu.Lock()
 	c.armedR, c.armedW = !t.IsZero(), !t.IsZero()
 	c.expiredR = false
+	c.deadlineR = t
 	c.mu.Unlock()
 	return nil
 }
@@ -241,6 +243,7 @@ func (c *simConn) SetReadDeadline(t time.Time) error {
 	c.mu.Lock()
 	c.armedR = !t.IsZero()
 	c.expiredR = false
+	c.deadlineR = t
 	c.mu.Unlock()
 	return nil
 }
